@@ -296,15 +296,17 @@ func runC17(c *Check) {
 		for _, r := range Returns(Z) {
 			t := p.T(r.Results[0])
 			if t.IsConst("false") {
-				c.Gate(zfa, r, "empty-zone", "an empty zone allows nothing", CmpLit("==", func(x *Term) bool { return x.Op == "phi" }, func(x *Term) bool { return x.IsConst("0") }))
+				c.Gate(zfa, r, "empty-zone", "an empty zone allows nothing", CmpLit("==", func(x *Term) bool { return x.Op == "phi" }, func(x *Term) bool { return x.IsConst("0") }),
+					CmpLit("<=", func(x *Term) bool { return x.Op == "phi" }, func(x *Term) bool { return x.IsConst("0") })) // total < 1
 				continue
 			}
-			okc := t.Op == "bin" && t.Name == "<=" && t.Args[1].IsField("maxOfflinePct")
+			ca, cb, cop, cok := cmpTerm(t)
+			okc := cok && cop == "<=" && cb.IsField("maxOfflinePct")
 			c.Req(okc, zn, p.InstrPos(r), "compare", "the answer is 'resulting percentage <= configured percentage'", "is "+t.String())
 			if !okc {
 				continue
 			}
-			lhs := t.Args[0]
+			lhs := ca
 			// numerator: offline + pending[zone of host] + 1 ; denominator: total
 			var num, den *Term
 			lhs.Contains(func(x *Term) bool {
